@@ -283,6 +283,18 @@ def run_c09(pid):
         jobs.append({"fe": fe, "rate": rnd.choice([8000, 44100, 96000, 3]), "bps": bps, "channels": ch, "opts": opts,
                      "pcm": pcm_spec(rnd.choice(["walk", "sine", "noise", "stereo", "wasted"]), 777 + i, fr),
                      "writes": [fr * upf_of(fe, ch, bps)], "tag": "big", **({"total": fr * upf_of(fe, ch, bps)} if i % 2 else {})})
+    # long streams (more than 65535 samples) with a declared length and time-based seek points: the placeholder
+    # table reserved up front must be the table finalize needs
+    for i in range(10 if t == "quick" else 60):
+        rate = rnd.choice([8000, 11025, 44100])
+        bs = rnd.choice([1152, 4096, 4608])
+        frames = rnd.randint(66000, 400000)
+        secs = rnd.choice([1, 1, 2, 10])
+        jobs.append({"fe": rnd.choice(FES), "rate": rate, "bps": 8, "channels": 1,
+                     "opts": {"block_size": bs, "seektable": {"seconds": secs} if i % 5 else None, "max_lpc": -1, "padding": rnd.choice([-1, 4096])},
+                     "pcm": pcm_spec("zero", 1, frames), "writes": [frames], "total": frames, "tag": "long-declared-seconds"})
+        if jobs[-1]["opts"]["seektable"] is None:
+            del jobs[-1]["opts"]["seektable"]
     # more frames than a seek table can hold, length undeclared: the carve path must not panic
     for pad in ([4096] if t == "quick" else [4096, 16777215, 16777000]):
         jobs.append({"fe": "sample", "rate": 44100, "bps": 8, "channels": 1, "opts": {"block_size": 16, "seektable": {"frames": 1}, "padding": pad,
